@@ -3,7 +3,12 @@
 package actor
 
 import (
+	"context"
 	"time"
+
+	"github.com/tochemey/goakt/v4/internal/cluster"
+	"github.com/tochemey/goakt/v4/internal/remoteclient"
+	"github.com/tochemey/goakt/v4/remote"
 
 	gerrors "github.com/tochemey/goakt/v4/errors"
 	"github.com/tochemey/goakt/v4/passivation"
@@ -11,7 +16,87 @@ import (
 	"github.com/tochemey/goakt/v4/supervisor"
 )
 
-func init() { vRegister("vC37_relocation", vC37_relocation) }
+func init() {
+	vRegister("vC37_relocation", vC37_relocation)
+	vRegister("vC37_spawnOn", vC37_spawnOn)
+}
+
+type vC37Actor struct{}
+
+func (*vC37Actor) PreStart(*Context) error { return nil }
+func (*vC37Actor) Receive(*ReceiveContext) {}
+func (*vC37Actor) PostStop(*Context) error { return nil }
+
+// cluster with one other member that advertises role "r1"; the name is free; round-robin picks that member
+type vC37Cluster struct{ cluster.Cluster }
+
+func (vC37Cluster) ActorExists(context.Context, string) (bool, error) { return false, nil }
+func (vC37Cluster) Members(context.Context) ([]*cluster.Peer, error) {
+	return []*cluster.Peer{{Host: "h1", RemotingPort: 9000, Roles: []string{"r1"}}}, nil
+}
+func (vC37Cluster) NextRoundRobinValue(context.Context, string) (int, error) { return 1, nil }
+
+// remoting client that records the spawn request it is asked to send
+type vC37Remoting struct {
+	remoteclient.Client
+	got *remote.SpawnRequest
+}
+
+func (r *vC37Remoting) RemoteSpawn(_ context.Context, _ string, _ int, req *remote.SpawnRequest) (*string, error) {
+	r.got = req
+	addr := "goakt://sys@h1:9000/a1"
+	return &addr, nil
+}
+
+// SpawnOn with cluster placement on another node: the request handed to the remoting client carries the whole configuration
+func vC37_spawnOn() {
+	stash := vNondetBool("stash")
+	hasRole := vNondetBool("withRole")
+	withInit := vNondetBool("withInitTimeout")
+	initTimeout := time.Duration(vNondetInt64("initTimeout"))
+	noReloc := vNondetBool("relocationDisabled")
+	sup := supervisor.NewSupervisor()
+	re := reentrancy.New(reentrancy.WithMode(reentrancy.AllowAll))
+	ps := passivation.NewLongLivedStrategy()
+	opts := []SpawnOption{WithSupervisor(sup), WithReentrancy(re), WithPassivationStrategy(ps)}
+	if stash {
+		opts = append(opts, WithStashing())
+	}
+	if hasRole {
+		opts = append(opts, WithRole("r1"))
+	}
+	if withInit {
+		opts = append(opts, WithInitTimeout(initTimeout))
+	}
+	if noReloc {
+		opts = append(opts, WithRelocationDisabled())
+	}
+	rc := &vC37Remoting{}
+	x := &actorSystem{cluster: vC37Cluster{}, remoting: rc}
+	x.started.Store(true)
+	x.clusterEnabled.Store(true)
+	_, _ = x.SpawnOn(context.Background(), "a1", &vC37Actor{}, opts...)
+	req := rc.got
+	vAssert(req != nil, "cluster placement on another member goes through the remoting client")
+	if req == nil {
+		return
+	}
+	vAssert(req.Name == "a1" && req.Singleton == nil, "the request names the actor")
+	vAssert(req.Supervisor == sup && req.Reentrancy == re && req.PassivationStrategy == passivation.Strategy(ps), "supervisor, reentrancy and passivation strategy are handed to the remote node")
+	vAssert(req.EnableStashing == stash && req.Relocatable == !noReloc, "stashing and relocatability are handed to the remote node")
+	wantInit := time.Duration(0)
+	if withInit && initTimeout > 0 {
+		wantInit = initTimeout
+	}
+	vAssert(req.InitTimeout == wantInit, "an explicit init timeout is handed to the remote node")
+	if hasRole {
+		vAssert(req.Role != nil && *req.Role == "r1", "the role is handed to the remote node")
+		vCover("with-role")
+	} else {
+		vAssert(req.Role == nil, "no role stays no role")
+	}
+	vCover("end")
+}
 
 // the relocation wire: spawn options -> spawnConfig -> PID fields (the pid options configPID applies) -> PID.toSerialize
 // -> internalpb.Actor -> actorSystem.wireSpawnOptions -> spawnConfig of the re-created actor
